@@ -567,10 +567,87 @@ Section PatInv.
     Qed.
   End Checked.
 
+  (** ** Min and Max *)
+  Lemma min_unfold : forall h f pbp c cn T g,
+    unfold f h pbp c = Some T -> nth_error h c = Some cn -> (f <= g + 1)%nat ->
+    exists n0, hd_error (entries h T) = Some n0 /\
+      (if n_bp cn <=? pbp then ROk (kv_of cn) else min_loop g h c) = ROk (kv_of n0).
+  Proof.
+    intros h. induction f as [|f IH]; intros pbp c cn T g H Hc Hg; simpl in H; [discriminate|].
+    rewrite Hc in H. destruct (n_bp cn <=? pbp) eqn:LE.
+    - injection H as <-. exists cn. unfold entries. simpl. rewrite Hc. auto.
+    - destruct (n_left cn) as [l|] eqn:EL; [|discriminate]. destruct (n_right cn) as [r'|] eqn:ER; [|discriminate].
+      destruct (unfold f h (n_bp cn) l) as [tl|] eqn:El; [|discriminate].
+      destruct (unfold f h (n_bp cn) r') as [tr|] eqn:Er; [|discriminate].
+      injection H as <-. destruct (unfold_node _ _ _ _ _ El) as [ln [Hl F0]].
+      destruct g as [|g]; [lia|].
+      destruct (IH (n_bp cn) l ln tl g El Hl) as [n0 [H0 E0]]; [lia|].
+      exists n0. split.
+      + unfold entries in *. simpl. rewrite flat_map_app.
+        destruct (flat_map _ (leaves tl)); [discriminate | exact H0].
+      + cbn [min_loop]. unfold hget at 1. rewrite Hc. cbn [rbind]. rewrite EL. cbn [link rbind].
+        unfold hget at 1. rewrite Hl. cbn [rbind]. exact E0.
+  Qed.
+
+  Lemma max_unfold : forall h r rn f pbp c cn T g,
+    nth_error h r = Some rn -> n_bp rn = 0 -> 0 <= pbp ->
+    unfold f h pbp c = Some T -> nth_error h c = Some cn -> (f <= g + 1)%nat ->
+    exists n0, last_error (entries h T) = Some n0 /\
+      (if n_bp cn <=? pbp then ROk (kv_of cn) else max_loop g h r c) = ROk (kv_of n0).
+  Proof.
+    intros h r rn. induction f as [|f IH]; intros pbp c cn T g Hr Hb Hz H Hc Hg; simpl in H; [discriminate|].
+    rewrite Hc in H. destruct (n_bp cn <=? pbp) eqn:LE.
+    - injection H as <-. exists cn. unfold entries. simpl. rewrite Hc. auto.
+    - apply Z.leb_gt in LE.
+      destruct (n_left cn) as [l|] eqn:EL; [|discriminate]. destruct (n_right cn) as [r'|] eqn:ER; [|discriminate].
+      destruct (unfold f h (n_bp cn) l) as [tl|] eqn:El; [|discriminate].
+      destruct (unfold f h (n_bp cn) r') as [tr|] eqn:Er; [|discriminate].
+      injection H as <-. destruct (unfold_node _ _ _ _ _ Er) as [xn [Hx F0]].
+      destruct g as [|g]; [lia|].
+      destruct (IH (n_bp cn) r' xn tr g Hr Hb) as [n0 [H0 E0]]; auto; try lia.
+      exists n0. split.
+      + unfold entries in *. simpl. rewrite flat_map_app, last_error_app. now rewrite H0.
+      + cbn [max_loop]. unfold hget at 1. rewrite Hc. cbn [rbind].
+        assert (NR : Nat.eqb c r = false).
+        { apply Nat.eqb_neq. intros ->. rewrite Hr in Hc. injection Hc as <-. lia. }
+        rewrite NR, ER. cbn [link rbind]. unfold hget at 1. rewrite Hx. cbn [rbind]. exact E0.
+  Qed.
+
+  Theorem p_min_correct : forall t, p_inv_check t = true -> p_min t = ROk (s_min (p_contents t)).
+  Proof.
+    intros t CHK. unfold p_min, s_min. destruct (proot t) as [r|] eqn:R.
+    - destruct (inv_check_nonempty t r CHK R) as [rn [c [T I]]]. destruct I.
+      destruct (unfold_node _ _ _ _ _ pi_unfold0) as [cn [Hc _]].
+      destruct (min_unfold (pheap t) _ 0 c cn T (S (length (pheap t))) pi_unfold0 Hc) as [n0 [H0 E0]]; [lia|].
+      unfold fuel_of. remember (S (length (pheap t))) as g eqn:EG. cbn [min_loop]. unfold hget at 1. rewrite pi_rn0. cbn [rbind]. rewrite pi_left0.
+      cbn [link rbind]. unfold hget at 1. rewrite Hc. cbn [rbind]. rewrite pi_bp0.
+      assert (E1 : (x <- (if n_bp cn <=? 0 then ROk (n_key cn, n_val cn) else min_loop g (pheap t) c) ;; ROk (Some x)) = ROk (Some (kv_of n0))).
+      { destruct (n_bp cn <=? 0); [|now rewrite E0]. cbn [rbind]. injection E0 as Ea Eb. unfold kv_of. now rewrite Ea, Eb. }
+      rewrite E1.
+      rewrite pi_contents0. destruct (entries (pheap t) T); [discriminate|]. simpl in *. now injection H0 as ->.
+    - destruct (inv_check_empty t CHK R) as [_ ->]. reflexivity.
+  Qed.
+
+  Theorem p_max_correct : forall t, p_inv_check t = true -> p_max t = ROk (s_max (p_contents t)).
+  Proof.
+    intros t CHK. unfold p_max, s_max. destruct (proot t) as [r|] eqn:R.
+    - destruct (inv_check_nonempty t r CHK R) as [rn [c [T I]]]. destruct I.
+      destruct (unfold_node _ _ _ _ _ pi_unfold0) as [cn [Hc _]].
+      destruct (max_unfold (pheap t) r rn _ 0 c cn T (S (length (pheap t))) pi_rn0 pi_bp0 (Z.le_refl 0) pi_unfold0 Hc)
+        as [n0 [H0 E0]]; [lia|].
+      unfold fuel_of. remember (S (length (pheap t))) as g eqn:EG. cbn [max_loop]. unfold hget at 1. rewrite pi_rn0. cbn [rbind]. rewrite Nat.eqb_refl, pi_left0.
+      cbn [link rbind]. unfold hget at 1. rewrite Hc. cbn [rbind]. rewrite pi_bp0.
+      assert (E1 : (x <- (if n_bp cn <=? 0 then ROk (n_key cn, n_val cn) else max_loop g (pheap t) r c) ;; ROk (Some x)) = ROk (Some (kv_of n0))).
+      { destruct (n_bp cn <=? 0); [|now rewrite E0]. cbn [rbind]. injection E0 as Ea Eb. unfold kv_of. now rewrite Ea, Eb. }
+      rewrite E1.
+      rewrite pi_contents0, last_error_map, H0. reflexivity.
+    - destruct (inv_check_empty t CHK R) as [_ ->]. reflexivity.
+  Qed.
+
   (** the queries covered by the theorems above *)
   Definition checked_query (e : ev V) : Prop :=
     match e with
-    | EGet _ | ESize | EFloor _ | ECeiling _ | ESelect _ | ERank _ | ERange _ _ | ERangeSize _ _ | EAll => True
+    | EGet _ | ESize | EMin | EMax | EFloor _ | ECeiling _ | ESelect _ | ERank _ | ERange _ _ | ERangeSize _ _ | EAll => True
     | _ => False
     end.
 
@@ -580,6 +657,8 @@ Section PatInv.
     intros t e CHK Q. destruct e; cbn [checked_query] in Q; try contradiction; cbn [p_step s_step snd].
     - now rewrite (p_get_correct t k CHK).
     - now rewrite (p_size_correct t CHK).
+    - now rewrite (p_min_correct t CHK).
+    - now rewrite (p_max_correct t CHK).
     - now rewrite (p_floor_correct t CHK).
     - now rewrite (p_ceiling_correct t CHK).
     - now rewrite (p_select_correct t CHK).
